@@ -69,6 +69,12 @@ func NewExchangeJSightSchema[T bytes.ByteKeeper](
 		return nil, err
 	}
 
+	// The example is a part of the serialized schema, if it can't be built the
+	// error have to be found here, not during the serialization of the catalog.
+	if _, err = es.Example(); err != nil {
+		return nil, err
+	}
+
 	return es, nil
 }
 
